@@ -1,7 +1,8 @@
 (* C24 — property theorems only: each closed by [exact lemma], followed by Print Assumptions.
    The precedence / keyword table obligations over the tables regenerated from the sources
-   (C24_prec_tables_agree, C24_unary_ops_agree, C24_keyword_tables_agree, C24_toplevel_switch_agrees) are in PropsGen.v,
-   compiled on every run against build/C24/GenTokens.v. *)
+   (C24_prec_tables_agree, C24_unary_ops_agree, C24_keyword_tables_agree, C24_toplevel_switch_agrees, C24_model_source_unchanged) are in
+   translators/tr_c24tokens/PropsGen.v.tmpl, compiled on every run as build/C24/GenC24b_Props.v against the regenerated
+   build/C24/GenC24a_Tokens.v. *)
 From Coq Require Import List NArith ZArith Bool.
 From Verif Require Import C24.Model C24.Proof C24.ProofTop.
 Import ListNotations.
@@ -36,7 +37,7 @@ Print Assumptions C24_parse_whole_iff.
    produced by the same sub-parser class *)
 Theorem C24_toplevel_decls_preserved : forall items pk ds,
   stdParseFile items = Some (pk, ds) -> forkParse items = NPackage pk :: ds /\ fileShape (forkParse items) = true.
-Proof. intros items pk ds H. exact (conj (toplevel_preserved items pk ds H) (toplevel_accept_shape items pk ds H)). Qed.
+Proof. exact toplevel_preserved_and_shape. Qed.
 Print Assumptions C24_toplevel_decls_preserved.
 
 (* top level, invalid structure: whenever parseFile rejects an extension-free item sequence, the fork's node list is
